@@ -63,8 +63,11 @@ def run_sequence(acc, case):
                     def handled():
                         tr = assoc.transport if assoc is not None else None
                         return applied[0] and not sc.node_sock.rx and (tr is None or not tr._recv_data_stream)
+                    if case.get("pre") and sc.node_sock is not None and not sc.node_sock.closed:
+                        # a message from the peer is on its way in (not waited for): the parked tick may be the one that handles it
+                        sc.inject(scen.event_bytes(case["pre"], run.ids)[0])
                     if psm is not None and not psm.done:
-                        sc.sched.parks.append({"task": psm.name, "nth": sc.sched.line_count.get(psm.name, 0) + case["park_psm"][1],
+                        sc.sched.parks.append({"task": psm.name, "nth": case["park_psm"][1],
                                                "release": handled, "timeout": 0.02})
                         sc.sched.run_until(lambda: psm.why == "parked" or psm.done, 0.05, "psm-parks")
                         if psm.why == "parked":
@@ -245,6 +248,13 @@ def plan(tier, seed):
                 role = ("client", "server")[k % 2] if q else None
                 for r in ([role] if role else ["client", "server"]):
                     cases.append({"role": r, "apps": [16777251], "seq": prefix + [ev], "park_psm": [len(prefix), k], "seed": seed * 17 + k})
+    # ... and the two local/peer endings landing in the tick that is busy with a message that has just come in
+    for pre in ("CER", "DWR", "APP-req", "APP-ans", "CEA"):
+        for ev in ("local-stop", "peer-disconnect"):
+            for k in range(0, 120, 3 if q else 1):
+                role = ("client", "server")[(k // 3) % 2] if q else None
+                for r in ([role] if role else ["client", "server"]):
+                    cases.append({"role": r, "apps": [16777251], "seq": ["@open", ev], "park_psm": [1, k], "pre": pre, "seed": seed * 19 + k})
     for i in range(160 if q else 12000):
         role = rng.choice(["client", "server"])
         cases.append({"kind": "open-sched", "role": role, "apps": rng.choice([[], [16777251]]),
